@@ -265,3 +265,260 @@ Example iterator_yields_snapshot_nonvacuous :
      = [Some [1; 1]; Some [1; 2]; None; None].
 Proof. vm_compute. split; reflexivity. Qed.
 Print Assumptions iterator_yields_snapshot_nonvacuous.
+
+(** * Round 4: the slab-based structure the code uses, the machine limits of the handle layer, energy *)
+From CB Require Import Trie.SlabPrefixMap.
+From CB Require Import Trie.SlabPrefixMapProofs.
+
+(** ** [PrefixesMap] as coded (slab of nodes, children lists of slab keys, LIFO key reuse, the descent
+    loops and the unwinding loop of [delete]) refines the multiset of prefixes for every history: the
+    implementation-shaped model never reaches an "Invariant violation" panic, answers exactly like the
+    multiset, and its state stays the representation (footprint: no sharing, no dangling key) of a
+    well-formed functional trie whose counts are the multiplicities - so every theorem above about
+    [pmap] (lock checks, exact prefix specifications, overflow) holds of the slab structure. *)
+Theorem slab_prefixmap_refines_multiset : forall ops : list pop,
+  exists m' pm',
+    sm_run ops sm_empty = Some (m', snd (bag_run ops []))
+    /\ SInv m' pm' /\ pm_wf pm' = true
+    /\ forall k, pm_count k pm' = bag_count k (fst (bag_run ops [])).
+Proof.
+  exact (fun ops => match sm_run_refines ops sm_empty None [] SInv_init PInv_init with
+                    | ex_intro _ m' (ex_intro _ pm' (conj a (conj b (conj c d)))) =>
+                        ex_intro _ m' (ex_intro _ pm' (conj a (conj b (conj c d))))
+                    end).
+Qed.
+Print Assumptions slab_prefixmap_refines_multiset.
+
+(** per-operation commutation with the functional trie (abstraction relation [SInv]) *)
+Theorem slab_step_commutes : forall o m pm,
+  SInv m pm -> pm_wf pm = true ->
+  exists m', sm_step o m = Some (m', snd (pm_step o pm)) /\ SInv m' (fst (pm_step o pm)).
+Proof. exact sm_step_ok. Qed.
+Print Assumptions slab_step_commutes.
+
+(** invariants of the slab in every represented state: root and all stored child keys denote occupied
+    cells ([cell_ok]: no dangling key), no cell is shared (NoDup footprint), a reachable node without
+    children has a positive count, counts fit u32, and the free stack holds distinct vacant keys. *)
+Theorem slab_state_invariants : forall m pm,
+  SInv m pm -> pm_wf pm = true ->
+  match sm_root m with
+  | None => pm = None
+  | Some r => exists fp, In r fp /\ NoDup fp /\ forall x, In x fp -> cell_ok (sl_cells (sm_slab m)) fp x
+  end
+  /\ NoDup (sl_free (sm_slab m))
+  /\ forall x, In x (sl_free (sm_slab m)) -> nth_error (sl_cells (sm_slab m)) x = Some None.
+Proof. exact slab_invariants. Qed.
+Print Assumptions slab_state_invariants.
+
+Example slab_history_nonvacuous :
+  let ops := [PIns [1; 2]; PIns [1]; PIns [1; 3]; PDel [1; 2]; PIns [7]; PCheck [1; 5]; PDel [1]; PIohp [1];
+              PDel [1; 3]; PDel [7]; PDel [7]] in
+  option_map snd (sm_run ops sm_empty) = Some (snd (bag_run ops []))
+  /\ option_map (fun r => sm_dump (fst r)) (sm_run ops sm_empty) = Some (None, [], 0%nat)
+  /\ option_map (fun r => sm_dump (fst r)) (sm_run [PIns [1; 2]; PIns [1; 3]; PDel [1; 2]; PIns [7]] sm_empty)
+     = Some (Some 0%nat, [(0%nat, (0, [(1, 1%nat); (7, 2%nat)])); (1%nat, (0, [(3, 3%nat)]));
+                          (2%nat, (1, [])); (3%nat, (1, []))], 4%nat).
+Proof. vm_compute. repeat split. Qed.
+Print Assumptions slab_history_nonvacuous.
+
+From CB Require Import Gen.HostCosts.
+From CB Require Import Trie.InstLimits.
+From CB Require Import Trie.InstLimitsProofs.
+
+(** ** Handle encodings and counters with machine arithmetic *)
+Theorem handle_decode_encode : forall gen idx,
+  gen < P32 -> idx < P32 -> h_split (h_enc gen idx) = (gen, idx).
+Proof. exact h_split_enc. Qed.
+Print Assumptions handle_decode_encode.
+
+Theorem handle_encode_injective : forall g1 i1 g2 i2,
+  g1 < P32 -> i1 < P32 -> g2 < P32 -> i2 < P32 -> h_enc g1 i1 = h_enc g2 i2 -> g1 = g2 /\ i1 = i2.
+Proof. exact h_enc_injective. Qed.
+Print Assumptions handle_encode_injective.
+
+Theorem handle_never_a_sentinel : forall gen idx,
+  gen < P32 -> idx < P32 - 1 -> h_enc gen idx <> H_NONE /\ h_enc gen idx <> H_ERR.
+Proof. exact h_enc_ne_sentinels. Qed.
+Print Assumptions handle_never_a_sentinel.
+
+(** for every history of id allocations and interrupts, in both build flavours: below the limits the ids
+    of the current generation are pairwise distinct, decode to (generation, position), are no sentinel *)
+Theorem ids_unique_within_generation : forall checked ops c,
+  c_run checked ops ctr0 = Some c ->
+  (c_ents c <= P32 -> NoDup (c_eids c)) /\ (c_its c <= P32 -> NoDup (c_iids c))
+  /\ (c_ents c <= P32 -> forall h, In h (c_eids c) ->
+        exists i, i < c_ents c /\ h = h_enc (c_gen c) i /\ h_split h = (c_gen c, i))
+  /\ (c_ents c <= P32 - 1 -> forall h, In h (c_eids c) -> h <> H_NONE /\ h <> H_ERR).
+Proof. exact ids_unique_below_limit. Qed.
+Print Assumptions ids_unique_within_generation.
+
+(** what happens AT the boundaries (there is no check in the code): *)
+Theorem handle_index_overflow_refuted : forall gen j,
+  j < P32 ->
+  h_enc gen (P32 + j) = h_enc (N.lor gen 1) j
+  /\ (N.odd gen = true -> h_enc gen (P32 + j) = h_enc gen j)
+  /\ (N.even gen = true -> h_enc gen (P32 + j) = h_enc (gen + 1) j).
+Proof.
+  exact (fun gen j H => conj (h_enc_index_overflow gen j H)
+                             (conj (h_enc_index_overflow_odd gen j H) (h_enc_index_overflow_even gen j H))).
+Qed.
+Print Assumptions handle_index_overflow_refuted.
+
+Theorem sentinel_collision_generations :
+  h_enc 4294967295 4294967295 = H_NONE /\ h_enc 3221225471 4294967295 = H_ERR.
+Proof. exact sentinel_collisions. Qed.
+Print Assumptions sentinel_collision_generations.
+
+Theorem generation_counter_overflow : forall c,
+  c_gen c = U32MAXv ->
+  c_step true (KMigrate true) c = None
+  /\ forall idx, idx < P32 ->
+       exists c', c_step false (KMigrate true) c = Some (c', None) /\ c_gen c' = c_gen ctr0
+                  /\ h_split (h_enc (c_gen ctr0) idx) = (c_gen c', idx).
+Proof.
+  exact (fun c E => conj (gen_checked_panics c E) (fun idx H => gen_wrap_revives_handle c idx E H)).
+Qed.
+Print Assumptions generation_counter_overflow.
+
+(** refusal at the size limits: nothing but the [changed] flag / nothing at all changes *)
+Theorem size_limits_refuse : forall changed key_len vlen n,
+  (MAX_KEY_SIZE < key_len -> create_entry_guard changed key_len = (true, false))
+  /\ (MAX_ENTRY_SIZE < n -> resize_len vlen n = (0, vlen))
+  /\ (vlen <= MAX_ENTRY_SIZE -> snd (resize_len vlen n) <= MAX_ENTRY_SIZE).
+Proof.
+  exact (fun changed key_len vlen n =>
+           conj (create_guard_refuses changed key_len) (conj (resize_refused vlen n) (resize_bounded vlen n))).
+Qed.
+Print Assumptions size_limits_refuse.
+
+Theorem entry_write_bounded : forall vlen off len w v',
+  vlen <= MAX_ENTRY_SIZE -> write_len vlen off len = Some (w, v') ->
+  v' <= MAX_ENTRY_SIZE /\ w <= len /\ vlen <= v' /\ (off <= vlen -> off + w <= v').
+Proof. exact write_bounded. Qed.
+Print Assumptions entry_write_bounded.
+
+Example limits_nonvacuous :
+  h_split (h_enc 7 4294967295) = (7, 4294967295)
+  /\ option_map c_eids (c_run true [KEntry; KIter; KEntry; KMigrate false; KEntry] ctr0)
+     = Some [h_enc 0 2; h_enc 0 1; h_enc 0 0]
+  /\ option_map c_eids (c_run true [KEntry; KMigrate true; KEntry] ctr0) = Some [h_enc 1 0]
+  /\ h_enc 5 (P32 + 3) = h_enc 5 3 /\ h_enc 4 (P32 + 3) = h_enc 5 3
+  /\ resize_len 10 1073741825 = (0, 10) /\ resize_len 10 1073741824 = (1, 1073741824)
+  /\ write_len 1073741824 1073741820 100 = Some (4, 1073741824).
+Proof. vm_compute. repeat split. Qed.
+Print Assumptions limits_nonvacuous.
+
+From CB Require Import Contract.HostBase Contract.HostV0 Contract.HostV1.
+From CB Require Import Trie.InstEnergy.
+From CB Require Import Trie.InstEnergyProofs.
+
+(** ** Energy of the refused paths (host-function model of C14, cost tables generated from constants.rs) *)
+Theorem create_entry_locked_charges_exactly : forall ks kl (s : st H1) key,
+  ks + kl < W64 -> create_entry_cost kl <= energy s -> ks + kl <= m_len (mem s) ->
+  mem_slice (mem s) ks (ks + kl) = Some key -> lenN key <= MAX_KEY_SIZE ->
+  locked_key (HostV1.is_locks (the_is s)) key = true ->
+  exists s', run_lop LCreate ks kl s = (s', Ok (Some (refused_result LCreate)))
+             /\ energy s' = energy s - refused_charge LCreate kl /\ mem s' = mem s
+             /\ the_is s' = is_set_changed (the_is s).
+Proof. exact create_entry_locked_charge. Qed.
+Print Assumptions create_entry_locked_charges_exactly.
+
+Theorem delete_entry_locked_charges_exactly : forall ks kl (s : st H1) key,
+  ks + kl < W64 -> delete_entry_cost kl <= energy s -> ks + kl <= m_len (mem s) ->
+  mem_slice (mem s) ks (ks + kl) = Some key ->
+  any_live (HostV1.is_entries (the_is s)) = true ->
+  locked_key (HostV1.is_locks (the_is s)) key = true ->
+  exists s', run_lop LDelete ks kl s = (s', Ok (Some (refused_result LDelete)))
+             /\ energy s' = energy s - refused_charge LDelete kl /\ mem s' = mem s
+             /\ the_is s' = is_set_changed (the_is s).
+Proof. exact delete_entry_locked_charge. Qed.
+Print Assumptions delete_entry_locked_charges_exactly.
+
+Theorem delete_prefix_locked_charges_exactly : forall ks kl (s : st H1) key,
+  ks + kl < W64 -> delete_prefix_find_cost kl <= energy s -> ks + kl <= m_len (mem s) ->
+  mem_slice (mem s) ks (ks + kl) = Some key ->
+  any_live (HostV1.is_entries (the_is s)) = true ->
+  locked_prefix (HostV1.is_locks (the_is s)) key = true ->
+  exists s', run_lop LDeletePrefix ks kl s = (s', Ok (Some (refused_result LDeletePrefix)))
+             /\ energy s' = energy s - refused_charge LDeletePrefix kl /\ mem s' = mem s
+             /\ the_is s' = is_set_changed (the_is s)
+             /\ x_lower (h_ext (hs s')) = x_lower (h_ext (hs s)).
+Proof. exact delete_prefix_locked_charge. Qed.
+Print Assumptions delete_prefix_locked_charges_exactly.
+
+Theorem iterate_too_many_charges_exactly : forall ks kl (s : st H1) key,
+  ks + kl < W64 -> new_iterator_cost kl <= energy s -> ks + kl <= m_len (mem s) ->
+  mem_slice (mem s) ks (ks + kl) = Some key ->
+  live_with_prefix key (HostV1.is_entries (the_is s)) 0 <> [] ->
+  lock_add key (HostV1.is_locks (the_is s)) = None ->
+  exists s', run_lop LIterate ks kl s = (s', Ok (Some (refused_result LIterate)))
+             /\ energy s' = energy s - refused_charge LIterate kl /\ mem s' = mem s /\ the_is s' = the_is s.
+Proof. exact iterate_too_many_charge. Qed.
+Print Assumptions iterate_too_many_charges_exactly.
+
+Theorem refused_ops_charge_before_work : forall o ks kl (s : st H1),
+  ks + kl < W64 -> energy s < refused_charge o kl -> ks + kl <= m_len (mem s) ->
+  exists s', run_lop o ks kl s = (s', OutOfEnergy) /\ hs s' = hs s /\ mem s' = mem s.
+Proof. exact refused_ops_charge_first. Qed.
+Print Assumptions refused_ops_charge_before_work.
+
+Theorem iterator_next_invalid_charges_exactly : forall it (s : st H1),
+  ITERATOR_NEXT_COST <= energy s ->
+  (forall idx i, handle_iter (the_is s) it <> Some (idx, Some i)) ->
+  exists s', state_iterator_next it s = (s', Ok (Some NEW_ERR))
+             /\ energy s' = energy s - ITERATOR_NEXT_COST /\ mem s' = mem s /\ hs s' = hs s.
+Proof. exact iterator_next_invalid_charge. Qed.
+Print Assumptions iterator_next_invalid_charges_exactly.
+
+Theorem iterator_delete_charges_exactly : forall it (s : st H1),
+  DELETE_ITERATOR_BASE_COST <= energy s ->
+  match handle_iter (the_is s) it with
+  | Some (idx, Some i) =>
+      DELETE_ITERATOR_BASE_COST + delete_iterator_cost (u32 (lenN (iter_key i))) <= energy s ->
+      exists s', state_iterator_delete it s = (s', Ok (Some 1))
+                 /\ energy s' = energy s - (DELETE_ITERATOR_BASE_COST + delete_iterator_cost (u32 (lenN (iter_key i))))
+                 /\ HostV1.is_locks (the_is s') = remove_one (it_root i) (HostV1.is_locks (the_is s))
+  | Some (_, None) =>
+      exists s', state_iterator_delete it s = (s', Ok (Some 0))
+                 /\ energy s' = energy s - DELETE_ITERATOR_BASE_COST /\ hs s' = hs s
+  | None =>
+      exists s', state_iterator_delete it s = (s', Ok (Some U32MAX))
+                 /\ energy s' = energy s - DELETE_ITERATOR_BASE_COST /\ hs s' = hs s
+  end.
+Proof. exact iterator_delete_charge. Qed.
+Print Assumptions iterator_delete_charges_exactly.
+
+(** non-vacuity: a concrete host state (one entry [1;2], key bytes at address 1024) with a live iterator
+    on [1] (resp. a lock count of u32::MAX on [1]) on which the hypotheses hold and the charges are exact *)
+From CB Require Import Contract.HostRun.
+Definition c15_demo0 : st H1 :=
+  init_st (mkScript true false 4 1 [] [] true [] [([1; 2], [9])] [(1024, [1; 2])] [] 0 [] []) 1000000.
+Definition c15_demo : st H1 := fst (state_iterator 1024 1 c15_demo0).
+Definition c15_demo_max : st H1 :=
+  fst (set_is (mkIS 0 (HostV1.is_entries (the_is c15_demo0)) [] [] [([1], 4294967295)] false) c15_demo0).
+
+Example refused_charges_nonvacuous :
+  snd (state_iterator 1024 1 c15_demo0) = Ok (Some (handle 0 0))
+  /\ 1024 + 2 < W64 /\ create_entry_cost 2 <= energy c15_demo /\ 1024 + 2 <= m_len (mem c15_demo)
+  /\ mem_slice (mem c15_demo) 1024 (1024 + 2) = Some [1; 2]
+  /\ locked_key (HostV1.is_locks (the_is c15_demo)) [1; 2] = true
+  /\ locked_prefix (HostV1.is_locks (the_is c15_demo)) [1; 2] = true
+  /\ any_live (HostV1.is_entries (the_is c15_demo)) = true
+  /\ snd (run_lop LCreate 1024 2 c15_demo) = Ok (Some U64MAX)
+  /\ energy (fst (run_lop LCreate 1024 2 c15_demo)) = energy c15_demo - create_entry_cost 2
+  /\ snd (run_lop LDelete 1024 2 c15_demo) = Ok (Some 0)
+  /\ energy (fst (run_lop LDelete 1024 2 c15_demo)) = energy c15_demo - delete_entry_cost 2
+  /\ snd (run_lop LDeletePrefix 1024 2 c15_demo) = Ok (Some 0)
+  /\ energy (fst (run_lop LDeletePrefix 1024 2 c15_demo)) = energy c15_demo - delete_prefix_find_cost 2
+  /\ live_with_prefix [1] (HostV1.is_entries (the_is c15_demo_max)) 0 <> []
+  /\ lock_add [1] (HostV1.is_locks (the_is c15_demo_max)) = None
+  /\ snd (run_lop LIterate 1024 1 c15_demo_max) = Ok (Some NEW_ERR)
+  /\ energy (fst (run_lop LIterate 1024 1 c15_demo_max)) = energy c15_demo_max - new_iterator_cost 1
+  /\ snd (state_iterator_next (handle 1 0) c15_demo) = Ok (Some NEW_ERR)
+  /\ energy (fst (state_iterator_next (handle 1 0) c15_demo)) = energy c15_demo - ITERATOR_NEXT_COST
+  /\ snd (state_iterator_delete (handle 0 0) c15_demo) = Ok (Some 1)
+  /\ energy (fst (state_iterator_delete (handle 0 0) c15_demo))
+     = energy c15_demo - (DELETE_ITERATOR_BASE_COST + delete_iterator_cost 1)
+  /\ snd (run_lop LCreate 1024 2 (mkSt 10 (mem c15_demo) [] (hs c15_demo))) = OutOfEnergy.
+Proof. vm_compute. repeat split; discriminate. Qed.
+Print Assumptions refused_charges_nonvacuous.
